@@ -203,10 +203,20 @@ AddNodeStep(ln) ==
             /\ NoCalls(ln.st)
             /\ PFinish(e.st, ln)
 
+\* credit booked to wallets while the settlement is in progress (after the balance was read, before the settled
+\* credit is taken off the ledger): it is neither paid out nor lost - the result is that of "withdraw, then credit"
+RECURSIVE CreditSeq(_, _)
+CreditSeq(P, seq) == IF seq = <<>> THEN P
+                     ELSE LET d == Head(seq) IN
+                          CreditSeq(IF "id" \in DOMAIN d THEN AddNodeBalanceF(P, d.id, d.amt).st      \* metering of a node
+                                    ELSE AddAccountBalanceF(P, d.acct, d.amt).st, Tail(seq))
+
 WithdrawStep(ln) ==
     LET a == ln.a  r == ln.r  P1 == Accepted1(S, a)
         outcome == IF r.ok THEN "ok" ELSE IF r.err = "wmin" THEN "wmin" ELSE "settle"
-        e == WithdrawF(P1, a, outcome)
+        e0 == WithdrawF(P1, a, outcome)
+        during == IF "during" \in DOMAIN a /\ outcome # "wmin" THEN a.during ELSE <<>>      \* (below the minimum nothing is settled)
+        e == [e0 EXCEPT !.st = CreditSeq(e0.st, during)]
     IN /\ AuthAsserts(S, a, r)
        /\ NotAuthentic(a, r, ln)
        /\ IF Refused(r) THEN RefusedStep(S, a, ln)
